@@ -6,13 +6,15 @@
     target/index data. [find_edges ops o t x old_tested brk] is FindEdges; the two booleans
     select the unrepaired maybeAddResult / initCovering (false false = the code in /repo).
 
+    The transcribed container/heap is proved to pop a minimal entry and keep the others
+    (Proofs/C08_Heap.v, [heap_spec]); the search theorems use it.
+
     Premises of the search theorems (bundled in [SearchPremises]):
       ExactTarget  updateDistanceToEdge/Cell answer "d < limit ? d" for tables edist, cdist
       SubLe        sub d maxError <= d
       LB           cdist(cell) <= edist(e) for every edge e of an index cell the cell represents
                    (discharged for the float distance functions by H-CELLDIST, H-EDGEDIST)
       SplitSound   the children enqueued for a popped cell represent every index cell below it
-      HeapSpec     container/heap pops a minimal entry and keeps the others
       EmptyFar / ZeroMin   an empty target is infinitely far; no distance is better than zero()
       CoverSound   initQueue's entries represent every index cell holding an edge better than
                    the limit (H-CAPARITH for the search cap; C05 for FastCovering)
@@ -21,13 +23,12 @@
 
     TODO (covered by the observer's exhaustive-scan search and the model correspondence on
     every run, not yet closed theorems):
-      - HeapSpec for the transcribed container/heap (heap_push/heap_pop)
       - SplitSound / CoverSound for the transcribed CellID arithmetic (split_cell, init_covering false)
       - Terminates from the level measure
       - targets that substitute approximate distances (ShapeIndex targets with MaxError > 0,
         avoidDuplicates, conservative cell distances): rank-wise error bound for MaxResults > 1 *)
 From Coq Require Import ZArith List Bool Sorted.
-From Geo Require Import Model.EdgeQuery Proofs.C08_Post Proofs.C08_Opt Proofs.C08_Main Proofs.C08_Refute.
+From Geo Require Import Model.EdgeQuery Proofs.C08_Post Proofs.C08_Opt Proofs.C08_Heap Proofs.C08_Main Proofs.C08_Refute.
 Import ListNotations.
 Local Open Scope Z_scope.
 
@@ -109,6 +110,11 @@ Theorem interior_zero : forall D (ops : dist_ops D), DistOK ops ->
   find_edge ops o t x old brk = mkR (d_zero ops) s (-1).
 Proof. exact interior_zero_gen. Qed.
 Print Assumptions interior_zero.
+
+(** queryQueue (container/heap on a slice): pops return a minimal entry, nothing is lost or invented *)
+Theorem query_queue_is_priority_queue : forall D (ops : dist_ops D), DistOK ops -> HeapSpec D ops.
+Proof. exact heap_spec. Qed.
+Print Assumptions query_queue_is_priority_queue.
 
 (** the unrepaired variants violate the property (witnesses by computation) *)
 Theorem maybe_add_result_old_refuted : exists (o : options Z) (t : target Z) (x : index),
